@@ -213,6 +213,9 @@ pub fn exec(it: &mut Interp, toks: &[&str], out: &mut Vec<String>) -> bool {
             let data: Vec<f32> = ks.iter().map(|k| *k as f32 / 64.0).collect();
             let m = Matrix::new(r, c, &data);
             let mut fails: Vec<String> = vec![];
+            if m.dim() != (r, c) {
+                fails.push(format!("dim() = {:?} for a {r}x{c} matrix", m.dim()));
+            }
             if !data.is_empty() {
                 let rows: Vec<Vec<f32>> = m.rows().map(|row| row.copied().collect()).collect();
                 let cols: Vec<Vec<f32>> = m.cols().map(|col| col.copied().collect()).collect();
